@@ -386,6 +386,14 @@ pub fn check_progress(policy: &Policy, miners: &[MinerSnap], at: ChainEpoch, o: 
                 }
             }
         }
+        // early terminations waiting in a deadline must be flagged at miner level (that flag is what
+        // drives their processing); otherwise they are stranded for good
+        for (di, d) in m.deadlines.iter().enumerate() {
+            let waiting = d.partitions.iter().any(|p| p.early_terminated.values().any(|b| !b.is_empty()));
+            if waiting && !m.early_terminations.contains(&(di as u64)) {
+                o.violate("early_terminations_processed", "C05/early_terminations_stranded", format!("after tick at {at}: miner {} deadline {di} has sectors waiting for early-termination processing but the miner does not list that deadline ({:?}): they will never be processed", m.id, m.early_terminations));
+            }
+        }
         let _ = policy;
     }
 }
